@@ -24,6 +24,7 @@ THEOREMS = [
     "PV.C19.width_over_i32_rejected",
     "PV.C19.reject_same_index",
     "PV.C19.parts_wf",
+    "PV.C19.checkSpecifiers_spec",
     "PV.C19.number_eq",
     "PV.C19.string_eq",
     "PV.C19.char_eq",
